@@ -113,6 +113,7 @@ pub fn run(ctx: Ctx) -> Report {
                 rep.sample(json!({"scheme": case.scheme.text(), "preamble_len": obs.preamble.len(), "packets": obs.packets.iter().map(|p| json!({"payload": p.payload_len, "writes": p.writes})).collect::<Vec<_>>()}));
             }
         }
+        run_concurrent(ctx, rep, shard, nshards);
         run::case_end();
     })
 }
@@ -120,9 +121,134 @@ pub fn run(ctx: Ctx) -> Report {
 pub fn meta() -> CheckMeta {
     CheckMeta {
         level: "exploration",
-        rule: "each case = a generated scheme (sizes <= 65535; incl. the built-in default, missing/empty line 0, junk entries, check marks, reversed ranges, any stop) driving the real send_authentication and a real client Session on a MemPipe that accepts whole writes (one write_all = one record); a single submitter issues stop+3 packets whose payload sizes are placed around the scheme's own sizes (L < s-7, s-7 <= L <= s, L > s, L > sum) ; the preamble (hash, announced length, bytes carried) and the write-length sequence of every session packet k are checked by a nondeterministic reference acceptor for line k (unpadded for k >= stop or a missing line); the server->client recording must contain no command-0 frame. distinct_nontrivial = distinct (scheme, payload sizes, observed write sizes) with at least one shaped packet.".into(),
-        assumptions: vec!["write-call boundaries are observed because the MemPipe accepts every write whole".into(), "padding byte values are not judged, only sizes".into(), "single submitter here; concurrent writers are covered by the packet-assignment variant".into()],
-        floors: vec![("packets_checked_against_a_scheme_line", 1000), ("packets_checked_after_stop", 300), ("preambles_checked", 500), ("padding_bytes_explained", 10_000)],
+        rule: "each case = a generated scheme (sizes <= 65535; incl. the built-in default, missing/empty line 0, junk entries, check marks, reversed ranges, any stop) driving the real send_authentication and a real client Session on a MemPipe that accepts whole writes (one write_all = one record); a single submitter issues stop+3 packets whose payload sizes are placed around the scheme's own sizes (L < s-7, s-7 <= L <= s, L > s, L > sum) ; the preamble (hash, announced length, bytes carried) and the write-length sequence of every session packet k are checked by a nondeterministic reference acceptor for line k (unpadded for k >= stop or a missing line); the server->client recording must contain no command-0 frame. Concurrent part: 2-4 tasks write at the same time for 1-3 rounds under random forced yields at the scheduling points; the j-th packet ON THE WIRE must be accepted by line j (the packet index may not be drawn in one order and the transport reached in another). distinct_nontrivial = distinct (scheme, payload sizes, observed write sizes) with at least one shaped packet, plus distinct concurrent interleavings.".into(),
+        assumptions: vec!["write-call boundaries are observed because the MemPipe accepts every write whole".into(), "padding byte values are not judged, only sizes".into(), "concurrent part: 2-4 writers x 1-3 rounds under random forced yields on a ladder scheme (distinct size range per line); packets are delimited on the wire by their payload frames".into()],
+        floors: vec![("packets_checked_against_a_scheme_line", 1000), ("packets_checked_after_stop", 300), ("preambles_checked", 500), ("padding_bytes_explained", 10_000), ("concurrent_packets_checked", 500)],
         exhaustive: false,
+    }
+}
+
+// ---------------------------------------------------------------------------
+// concurrent writers racing for the packet index: the j-th packet ON THE WIRE must be shaped by line j
+
+fn ladder_scheme(stop: u32) -> Scheme {
+    // distinct, non-overlapping ranges per line so that a write length identifies the line that shaped it
+    let mut lines = std::collections::BTreeMap::new();
+    lines.insert(0, vec![Entry::Range { lo: 20, hi: 40, reversed: false }]);
+    for k in 1..stop {
+        let lo = 150 + 200 * k as u64;
+        lines.insert(k, vec![Entry::Range { lo, hi: lo + 60, reversed: false }]);
+    }
+    Scheme { stop, lines, spaced: false }
+}
+
+/// returns (problems, packets checked)
+async fn concurrent_async(scheme: Scheme, writers: usize, rounds: usize, seed: u64) -> (Vec<String>, u64) {
+    use crate::engine;
+    use crate::mempipe::{PipeCfg, pipe};
+    use bytes::Bytes;
+    let mut problems = Vec::new();
+    let padding = engine::padding_from(&scheme.text()).expect("scheme");
+    let (c2s_w, c2s_r, c2s) = pipe(PipeCfg::plain());
+    let (s2c_w, s2c_r, _s2c) = pipe(PipeCfg::plain());
+    let (_server, mut ns, _t) = engine::start_server(c2s_r, s2c_w, padding.clone());
+    tokio::spawn(async move { while ns.recv().await.is_some() {} });
+    let Ok(client) = engine::start_client(s2c_r, c2s_w, padding, None).await else { return (vec!["start failed".into()], 0) };
+    // packet 1: the first request (Settings + SYN + PSH), sequential
+    let Ok((st, _rx)) = engine::open_like_client(&client, Bytes::from_static(b"dest")).await else { return (vec!["open failed".into()], 0) };
+    let mut k_wire: u32 = 1;
+    let mut checked = 0u64;
+    for round in 0..rounds {
+        let mark_off = c2s.accepted();
+        let mark_w = c2s.with_log(|l| l.writes.len());
+        let mut hs = Vec::new();
+        for w in 0..writers {
+            let c = client.clone();
+            let sid = st.id();
+            // unique small payloads (so every packet is payload + padding up to its line's size)
+            let len = 3 + w + 4 * round;
+            let mut data = vec![0xA0 + w as u8; len];
+            data[0] = round as u8;
+            hs.push(tokio::spawn(async move { c.write_data_frame(sid, Bytes::from(data)).await.is_ok() }));
+        }
+        for h in hs {
+            if !matches!(tokio::time::timeout(std::time::Duration::from_secs(600), h).await, Ok(Ok(true))) {
+                problems.push("a concurrent writer failed or blocked".to_string());
+                return (problems, checked);
+            }
+        }
+        tokio::time::sleep(std::time::Duration::from_secs(1)).await;
+        let (bytes, writes): (Vec<u8>, Vec<(u64, usize)>) = c2s.with_log(|l| (l.bytes[mark_off as usize..].to_vec(), l.writes[mark_w..].iter().map(|w| (w.off - mark_off, w.accepted)).collect()));
+        let (frames, consumed) = refcodec::parse_all(&bytes);
+        if consumed != bytes.len() {
+            problems.push("wire does not parse".into());
+            return (problems, checked);
+        }
+        // packets in wire order: each starts at a payload (PSH) frame
+        let starts: Vec<(usize, usize)> = frames.iter().filter(|f| f.cmd == refcodec::PSH).map(|f| (f.off, f.total())).collect();
+        if starts.len() != writers {
+            problems.push(format!("{} data frames on the wire, {writers} were submitted", starts.len()));
+            return (problems, checked);
+        }
+        for (i, (start, payload)) in starts.iter().enumerate() {
+            let end = starts.get(i + 1).map(|s| s.0).unwrap_or(bytes.len());
+            let ws: Vec<usize> = writes.iter().filter(|(o, _)| (*o as usize) >= *start && (*o as usize) < end).map(|(_, n)| *n).collect();
+            if ws.iter().sum::<usize>() != end - start {
+                problems.push(format!("a transport write spans two packets (packet bytes {}, writes {:?})", end - start, ws));
+                return (problems, checked);
+            }
+            k_wire += 1;
+            let res = if k_wire < scheme.stop {
+                match scheme.items(k_wire) {
+                    Some(items) => refscheme::accept_packet(&items, *payload, &ws).map(|_| ()),
+                    None => refscheme::accept_unpadded(*payload, &ws),
+                }
+            } else {
+                refscheme::accept_unpadded(*payload, &ws)
+            };
+            checked += 1;
+            if let Err(rej) = res {
+                let fits: Vec<u32> = (1..scheme.stop).filter(|k| scheme.items(*k).is_some_and(|it| refscheme::accept_packet(&it, *payload, &ws).is_ok())).collect();
+                problems.push(format!("with {writers} concurrent writers, packet #{k_wire} on the wire (payload {payload} bytes) went out as writes {:?}; line {k_wire} cannot produce that ({}); lines that would: {:?}", ws, rej.reason, fits));
+                return (problems, checked);
+            }
+        }
+    }
+    let _ = seed;
+    (problems, checked)
+}
+
+pub fn run_concurrent(ctx: Ctx, rep: &mut Report, shard: usize, nshards: usize) {
+    let n = ctx.tier.pick(320, 16_000) / nshards;
+    let mut rng = Rng::new(ctx.seed.wrapping_mul(0xC0FF).wrapping_add(shard as u64));
+    for i in 0..n {
+        let writers = rng.usize(2, 4);
+        let rounds = rng.usize(1, 3);
+        let stop = (2 + writers * rounds + rng.usize(0, 2)) as u32;
+        let scheme = ladder_scheme(stop);
+        let seed = rng.next();
+        run::case_begin(&format!("C05 concurrent case {i}"));
+        let guard = crate::sched::install(crate::sched::SchedMode::Random { p: *rng.pick(&[0.2, 0.5, 0.8]), max: 4 }, seed);
+        let sc = scheme.clone();
+        let r = run::vt_block_on_deadline(std::time::Duration::from_secs(100_000), async move { concurrent_async(sc, writers, rounds, seed).await });
+        let il = guard.state.borrow().interleaving_id();
+        drop(guard);
+        rep.case(Some(hash_str(&format!("conc:{writers}:{rounds}:{il}"))));
+        rep.seen("concurrent_interleavings", format!("{il:016x}"));
+        let case = json!({"kind": "c05-concurrent", "writers": writers, "rounds": rounds, "stop": stop, "sched_seed": seed.to_string()});
+        match r {
+            None => rep.violate("shape", "concurrent_writers", "case_stuck", "concurrent case did not finish", case.clone()),
+            Some((problems, checked)) => {
+                rep.add("concurrent_packets_checked", checked);
+                for p in problems {
+                    rep.violate("shape", "concurrent_writers", "wire_packet_not_shaped_by_its_line", p, case.clone());
+                }
+            }
+        }
+        for p in run::take_thread_panics() {
+            if !run::is_harness_panic(&p) {
+                rep.violate("shape", "concurrent_writers", "panic", p, case.clone());
+            }
+        }
     }
 }
